@@ -389,8 +389,18 @@ func (tb *TermBuilder) Term(ctx *Ctx, v ssa.Value) *Term {
 	}
 	tb.memo[mk] = nil
 	t := tb.build(ctx, v)
+	if hasCyc(t) {
+		// built inside a cycle through a loop phi: the placeholder must not
+		// outlive the computation that is resolving it
+		delete(tb.memo, mk)
+		return t
+	}
 	tb.memo[mk] = t
 	return t
+}
+
+func hasCyc(t *Term) bool {
+	return t.contains(func(x *Term) bool { return x.Op == "cyc" })
 }
 
 func (tb *TermBuilder) opaque(ctx *Ctx, v ssa.Value) *Term {
@@ -785,8 +795,24 @@ func (tb *TermBuilder) phi(ctx *Ctx, x *ssa.Phi) *Term {
 	if len(alts) == 1 && !self && !mentions(alts[0], in) {
 		return alts[0]
 	}
-	tb.alts[in] = alts
-	return tb.mk("phi", x.Comment, in)
+	me := tb.mk("phi", x.Comment, in)
+	cyc := tb.mk("cyc", "", in)
+	for i := range alts {
+		alts[i] = tb.Subst(alts[i], cyc, me)
+	}
+	if _, done := tb.alts[in]; !done || !anyCyc(alts) {
+		tb.alts[in] = alts
+	}
+	return me
+}
+
+func anyCyc(ts []*Term) bool {
+	for _, t := range ts {
+		if hasCyc(t) {
+			return true
+		}
+	}
+	return false
 }
 
 func mentions(t *Term, inst int) bool {
@@ -1056,7 +1082,12 @@ func (tb *TermBuilder) load(ctx *Ctx, ld *ssa.UnOp) *Term {
 				}
 				return tb.mk("index", "", 0, bt, tb.constInt(n))
 			}
-			return tb.mk("elem", "", tb.inst(ctx, ld, 0), bt)
+			it := tb.Term(ctx, a.Index)
+			if it.contains(func(x *Term) bool { return x.Op == "phi" || x.Op == "cyc" }) {
+				// loop-variant index: "the current element"
+				return tb.mk("elem", "", tb.inst(ctx, ld, 0), bt)
+			}
+			return tb.mk("index", "", 0, bt, it)
 		}
 	}
 	if t, ok := tb.localLoad(ctx, ld); ok {
@@ -1142,12 +1173,17 @@ func (tb *TermBuilder) liveBlocks(ctx *Ctx) map[*ssa.BasicBlock]bool {
 	m2 := map[*ssa.BasicBlock]bool{}
 	work := []*ssa.BasicBlock{ctx.fn.Blocks[0]}
 	m2[ctx.fn.Blocks[0]] = true
+	tainted := false
 	for len(work) > 0 {
 		b := work[len(work)-1]
 		work = work[:len(work)-1]
 		succs := b.Succs
 		if ifi, ok := b.Instrs[len(b.Instrs)-1].(*ssa.If); ok {
-			if cb, ok := tb.Term(ctx, ifi.Cond).BoolConst(); ok {
+			ct := tb.Term(ctx, ifi.Cond)
+			if hasCyc(ct) {
+				tainted = true
+			}
+			if cb, ok := ct.BoolConst(); ok {
 				if cb {
 					succs = b.Succs[:1]
 				} else {
@@ -1165,7 +1201,11 @@ func (tb *TermBuilder) liveBlocks(ctx *Ctx) map[*ssa.BasicBlock]bool {
 	if ctx.fn.Recover != nil {
 		m2[ctx.fn.Recover] = true
 	}
-	tb.live[ctx] = m2
+	if tainted {
+		delete(tb.live, ctx)
+	} else {
+		tb.live[ctx] = m2
+	}
 	return m2
 }
 
@@ -1684,4 +1724,15 @@ func (t *Term) pretty() string {
 		s += "(" + strings.Join(ps, ",") + ")"
 	}
 	return s
+}
+
+// returnTerms: terms of the (single) result at every return of f, in the root context of tb.
+func returnTerms(tb *TermBuilder, f *ssa.Function) []*Term {
+	var out []*Term
+	for _, b := range f.Blocks {
+		if r, ok := b.Instrs[len(b.Instrs)-1].(*ssa.Return); ok && len(r.Results) == 1 {
+			out = append(out, tb.Term(tb.root, r.Results[0]))
+		}
+	}
+	return out
 }
